@@ -61,7 +61,8 @@ def run(ctx):
         for widths in ([8, 12], [12, 8], [10, 10, 30], [30]):
             masters = [pyconst.NS(adr_width=w, data_width=32, __cls__=("Interface",)) for w in widths]
             slaves = [(pyconst.Tok("match", i), pyconst.NS(adr_width=30, data_width=32)) for i in range(2)]
-            it = pyconst.Interp({"self": pyconst.NS(), "masters": masters, "slaves": slaves, "register": False, "timeout_cycles": 100}, objects=True)
+            it = pyconst.Interp({"self": pyconst.NS(), "masters": masters, "slaves": slaves, "register": False, "timeout_cycles": 100}, objects=True,
+                                funcs={f.name: f for f in wm.tree.body if isinstance(f, ast.FunctionDef)})
             try:
                 it.run(fn.body)
             except Exception as ex:
